@@ -25,6 +25,7 @@ Definition tadd (a b : tv) : tv := match a, b with TQ x, TQ y => TQ (x + y) | _,
 (* IEEE comparisons: anything with NaN is false *)
 Definition tv_is0 (a : tv) : bool := match a with TQ x => Qeq_bool x 0 | TNaN => false end.
 Definition tv_ge (a b : tv) : bool := match a, b with TQ x, TQ y => Qle_bool y x | _, _ => false end.
+Definition tv_lt (a b : tv) : bool := match a, b with TQ x, TQ y => negb (Qle_bool y x) | _, _ => false end.
 Definition tv_pos (a : tv) : bool := match a with TQ x => negb (Qle_bool x 0) | TNaN => false end.
 Definition tv_finite (a : tv) : bool := match a with TQ _ => true | TNaN => false end.
 Definition tv_eqb (a b : tv) : bool :=
@@ -49,7 +50,8 @@ Fixpoint qsum (l : list Q) : Q := match l with [] => 0 | x :: r => x + qsum r en
 Inductive raw := R1 (ts : list tv) | R2.
 
 (* FList: list / tuple / scalar / "numpy..." string / file (all reach np.array(list, dtype=float));
-   FNdarray: a numpy array object passed as `times` (what Readout.replace does with its own _times) *)
+   FNdarray: a numpy array object passed as `times` (what Readout.replace does with its own _times); the
+   constructor handles it like a list iff it first converts it ([g_ndarray], regenerated) *)
 Inductive form := FList | FNdarray.
 
 Inductive guard :=
@@ -57,13 +59,14 @@ Inductive guard :=
 | GNdim1             (* ndim != 1 -> raise                                                             *)
 | GNonEmpty          (* size == 0 -> raise                                                             *)
 | GFirstNonZero      (* times[0] == 0 -> raise   (IndexError on an empty array: also a rejection)      *)
-| GStartBelowFirst   (* start >= times[0] -> raise                                                     *)
+| GStartBelowFirst   (* start >= times[0] -> raise        (negative form: a NaN on either side passes)    *)
+| GStartLtFirst      (* not start < times[0] -> raise     (positive form: a NaN on either side is refused)*)
 | GIncreasing.       (* not np.all(np.diff(times) > 0) -> raise                                        *)
 
 Definition guard_eqb (a b : guard) : bool :=
   match a, b with
   | GProvided, GProvided | GNdim1, GNdim1 | GNonEmpty, GNonEmpty | GFirstNonZero, GFirstNonZero
-  | GStartBelowFirst, GStartBelowFirst | GIncreasing, GIncreasing => true
+  | GStartBelowFirst, GStartBelowFirst | GStartLtFirst, GStartLtFirst | GIncreasing, GIncreasing => true
   | _, _ => false
   end.
 Definition gmem (g : guard) (l : list guard) : bool := existsb (guard_eqb g) l.
@@ -81,6 +84,8 @@ Definition guard_passes (g : guard) (start : tv) (r : raw) : bool :=
   | GFirstNonZero, R1 (t :: _) => negb (tv_is0 t)
   | GStartBelowFirst, R1 [] => false
   | GStartBelowFirst, R1 (t :: _) => negb (tv_ge start t)
+  | GStartLtFirst, R1 [] => false
+  | GStartLtFirst, R1 (t :: _) => tv_lt start t
   | GIncreasing, R1 ts => forallb tv_pos (tdiff ts)
   | _, R2 => true
   end.
@@ -91,6 +96,7 @@ Definition guards_pass (gs : list guard) (start : tv) (r : raw) : bool :=
 Definition concat_ok (r : raw) : bool := match r with R1 _ => true | R2 => false end.
 
 Record guard_table := {
+  g_ndarray : bool;             (* Readout.__init__ converts a numpy array given as `times` to a list first *)
   g_ctor : list guard;          (* Readout.__init__                       *)
   g_set_times : list guard;     (* Readout.times setter                   *)
   g_set_start : list guard;     (* Readout.start_time setter              *)
@@ -110,15 +116,14 @@ Inductive op :=
 | OReplaceStart (s : tv)         (* readout.replace(start_time=..) *)
 | OReplaceND (b : bool).         (* readout.replace(non_destructive=..) *)
 
-(* Readout(times=..., start_time=..., non_destructive=...) as coded.  An ndarray argument never gets
-   through: `elif times:` is ambiguous for size > 1 and eval_range refuses arrays otherwise. *)
+(* Readout(times=..., start_time=..., non_destructive=...) as coded.  Without the conversion an ndarray
+   argument never gets through: `elif times:` is ambiguous for size > 1 and eval_range refuses arrays
+   otherwise. *)
 Definition ctor (G : guard_table) (f : form) (r : raw) (s : tv) (nd : bool) : option readout :=
-  match f with
-  | FNdarray => None
-  | FList =>
-      if guards_pass (g_ctor G) s r && concat_ok r
-      then Some {| r_times := r; r_start := s; r_nd := nd |} else None
-  end.
+  if match f with FNdarray => g_ndarray G | FList => true end
+  then if guards_pass (g_ctor G) s r && concat_ok r
+       then Some {| r_times := r; r_start := s; r_nd := nd |} else None
+  else None.
 
 Definition apply_op (G : guard_table) (ro : readout) (o : op) : option readout :=
   match o with
@@ -413,8 +418,14 @@ Arguments rs_tamper {A}. Arguments rs_form {A}. Arguments rs_raw {A}. Arguments 
 Arguments rs_nd {A}. Arguments rs_ops {A}. Arguments rs_prog {A}.
 
 (* completeness conditions on the regenerated tables (checked by vm_compute in Properties/C02.v) *)
+(* ReadoutProperties.__init__ has the three elementwise guards, the start guard in either form: enough to
+   refuse every invalid NaN-FREE schedule *)
 Definition rp_complete (G : guard_table) : bool :=
-  gmem GFirstNonZero (g_rp G) && gmem GStartBelowFirst (g_rp G) && gmem GIncreasing (g_rp G).
+  gmem GFirstNonZero (g_rp G) && (gmem GStartBelowFirst (g_rp G) || gmem GStartLtFirst (g_rp G))
+  && gmem GIncreasing (g_rp G).
+(* ... with the start guard in the positive form: enough to refuse EVERY invalid schedule, NaN included *)
+Definition rp_complete_nan (G : guard_table) : bool :=
+  gmem GFirstNonZero (g_rp G) && gmem GStartLtFirst (g_rp G) && gmem GIncreasing (g_rp G).
 
 Definition empty_table_ok (E : empty_table) : bool :=
   forallb (fun b => bmem b (e_always E)) [Scene; Photon; Charge; Signal; Image]
